@@ -53,8 +53,10 @@ def _files():
     files["tests/test_sample.py"] = "def test_x():\n    print(3601)\n"
     files["legacy/old.py"] = "def f():\n    print(3601)\n"
     files["vendor/lib.py"] = "def g():\n    print(3601)\n"
+    files["generated/auto/gen.py"] = "def h(n):\n    print(3601)\n    return n * 3602\n"
+    files["generated/kept.py"] = "def k(n):\n    print(3603)\n    return n * 3604\n"
     files[".thailintignore"] = "legacy/\n"
-    cfg = load.deep_merge(cfg, {"improper-logging": {"ignore": ["vendor/"]}, "magic-numbers": {"ignore": ["vendor/"]}})
+    cfg = load.deep_merge(cfg, {"improper-logging": {"ignore": ["vendor/", "generated/auto/*"]}, "magic-numbers": {"ignore": ["vendor/", "generated/auto/*"]}})
     files[".thailint.yaml"] = yaml_dump(cfg)
     return files, index
 
@@ -160,7 +162,7 @@ def run_item(item) -> Acc:
 
     for cmd in cmds:
         # directory target = whole project
-        for cwd_name in cwds:
+        for cwd_name in ("root", "subdir", "parent", "elsewhere"):
             sp = _spellings(root, cwds[cwd_name], None)
             for sname, path in sp.items():
                 if not item["full"] and (sname in ("dotted", "trailing") or (cwd_name in ("subdir", "parent") and sname != "rel")):
@@ -179,15 +181,27 @@ def run_item(item) -> Acc:
                 rel = os.path.relpath(root / f, cwd)
                 for sname, path in (("abs", str(root / f)), ("rel", rel), ("dotted", "./" + rel if not rel.startswith(".") else rel)):
                     check(cmd, cwd_name, sname, path, "file", exp_f)
+        if cmd in ("improper-logging", "print-statements", "magic-numbers"):
+            # linter-level ignore pattern with a directory prefix, seen from INSIDE that directory
+            exp_g = [t for t in ref[cmd][1] if t[1].startswith("generated/")]
+            for cwd_name, cwd, targets in (("in-generated", root / "generated", [".", "auto", "auto/gen.py", "kept.py"]), ("in-generated-auto", root / "generated" / "auto", [".", "gen.py", "../kept.py", ".."])):
+                cwds[cwd_name] = cwd
+                for tpath in targets:
+                    tgt = os.path.normpath(os.path.join(cwd, tpath))
+                    relt = os.path.relpath(tgt, root)
+                    exp_t = [t for t in exp_g if t[1] == relt or t[1].startswith(relt + "/")]
+                    check(cmd, cwd_name, "rel", tpath, "inside-ignored-prefix", (1 if exp_t else 0, exp_t))
         if item["full"]:
-            for cwd_name in cwds:
+            for cwd_name in [c for c in cwds if not c.startswith("in-generated")]:
                 for sname, path in _spellings(root, cwds[cwd_name], "tests").items():
                     exp_s = [t for t in ref[cmd][1] if t[1].startswith("tests/")]
                     check(cmd, cwd_name, sname, path, "sub-dir", (1 if exp_s else 0, exp_s))
     # library API
     from src.api import Linter  # noqa: PLC0415
 
-    for cwd_name, cwd in cwds.items():
+    for cwd_name, cwd in list(cwds.items()):
+        if cwd_name.startswith("in-generated"):
+            continue
         for sname, path in _spellings(root, cwd, None).items():
             env.reset_caches()
             with obs.cwd(cwd):
